@@ -511,6 +511,7 @@ func (f *Flow) isPanicExit(b *cfg.Block) bool {
 
 type searchSpec struct {
 	starts     []*Atom       // start after these atoms; nil = function entry
+	startEdges []Edge        // additionally start at the targets of these edges
 	avoid      Match         // must-atoms that stop the search
 	avoidEdges map[Edge]bool // edges that stop the search
 	target     Match         // atoms searched for (nil = none)
@@ -528,7 +529,10 @@ func (f *Flow) search(sp searchSpec) *Witness {
 	}
 	var queue []*item
 	seen := map[*cfg.Block]bool{}
-	if sp.starts == nil {
+	for _, e := range sp.startEdges {
+		queue = append(queue, &item{b: e.From.Succs[e.Succ], from: 0, prev: &item{b: e.From}})
+	}
+	if sp.starts == nil && sp.startEdges == nil {
 		queue = append(queue, &item{b: f.G.Blocks[0], from: 0})
 		seen[f.G.Blocks[0]] = true
 	} else {
@@ -612,6 +616,30 @@ func (f *Flow) MayReachEdges(from []*Atom, avoid Match, avoidEdges map[Edge]bool
 // ExitReachable: a non-panicking exit satisfying filter is reachable from 'from' avoiding 'avoid'.
 func (f *Flow) ExitReachable(from []*Atom, avoid Match, avoidEdges map[Edge]bool, filter func(b *cfg.Block) bool) *Witness {
 	return f.search(searchSpec{starts: from, avoid: avoid, avoidEdges: avoidEdges, exits: true, exitFilter: filter})
+}
+
+// AfterEdgesMustPass: every non-panicking path from the given edges to an exit passes a B atom.
+func (f *Flow) AfterEdgesMustPass(edges map[Edge]bool, b Match, bEdges map[Edge]bool) *Witness {
+	var es []Edge
+	for e := range edges {
+		es = append(es, e)
+	}
+	if len(es) == 0 {
+		return nil
+	}
+	return f.search(searchSpec{startEdges: es, avoid: b, avoidEdges: bEdges, exits: true})
+}
+
+// AfterEdgesMayReach: some path from the given edges reaches a B atom without crossing avoid.
+func (f *Flow) AfterEdgesMayReach(edges map[Edge]bool, avoid Match, avoidEdges map[Edge]bool, b Match) *Witness {
+	var es []Edge
+	for e := range edges {
+		es = append(es, e)
+	}
+	if len(es) == 0 {
+		return nil
+	}
+	return f.search(searchSpec{startEdges: es, avoid: avoid, avoidEdges: avoidEdges, target: b})
 }
 
 // ---- branch conditions ----
